@@ -81,7 +81,39 @@ def specLoop : List (Option Int) → List Int → List Int → Int → Bool
       isLeastUnusedFrom used lo b && specLoop rest out (used ++ [b]) lo
   | _, _, _, _ => false
 
-def specCheck (o : Offset) (nodes : List (Option Int)) (out : List Int) : Bool :=
+/-- the ORDERED check: additionally to the statement it demands that the new numbers are handed out in node order
+    (each new number is the least unused one at the moment its node is visited).  The model passes it
+    (`complete_specCheckOrdered`); it is NOT what implementation outputs are judged by (review 3, M6). -/
+def specCheckOrdered (o : Offset) (nodes : List (Option Int)) (out : List Int) : Bool :=
   specLoop nodes out (existing nodes) (start o (existing nodes))
+
+/-- the numbers given to unmapped nodes, in node order -/
+def news : List (Option Int) → List Int → List Int
+  | none :: ns, b :: out => b :: news ns out
+  | some _ :: ns, _ :: out => news ns out
+  | _, _ => []
+
+/-- existing numbers are kept, position by position (and the lengths agree) -/
+def preservedB : List (Option Int) → List Int → Bool
+  | [], [] => true
+  | some a :: ns, b :: out => decide (a = b) && preservedB ns out
+  | none :: ns, _ :: out => preservedB ns out
+  | _, _ => false
+
+/-- every integer in `[lo, b)` is an existing or a new number, checked by scanning -/
+def gapFree (ex nw : List Int) (lo b : Int) : Bool :=
+  (List.range (b - lo).toNat).all fun d => ex.contains (lo + d) || nw.contains (lo + d)
+
+/-- the statement, clause by clause and nothing more: every node has a number and existing numbers are kept;
+    the new numbers are pairwise distinct, not below the requested start, distinct from all existing ones, and
+    they are the smallest unused integers from the start (no unused integer between the start and a new number).
+    WHICH unmapped node gets which of these numbers is not part of the statement. -/
+def specCheck (o : Offset) (nodes : List (Option Int)) (out : List Int) : Bool :=
+  let lo := start o (existing nodes)
+  let ex := existing nodes
+  let nw := news nodes out
+  preservedB nodes out && decide nw.Nodup &&
+    (nw.all fun b => decide (lo ≤ b) && !ex.contains b) &&
+    (nw.all fun b => gapFree ex nw lo b)
 
 end C20
